@@ -20,6 +20,11 @@ MANIFEST = dict(
          "(n <= reference count; witness early_end_byte_count_witness) and is a known finding. Tie to the code on every run: "
          "model = code on the real roll buffer fed through a hook with scripted read histories (capacities 1..65, both growth "
          "policies, sink stops), sequences of searches by one real Searcher (kind 206) = model = fresh Searcher, reader events = slice events = reference, the public search_reader, rg --mmap/--no-mmap/stdin. "
+         "ml_fill_never_truncates / ml_fill_reads_everything (Model/MultiLineBuffer.v: fill_multi_line_buffer_from_reader/_from_file — for every "
+         "stream, read history with short reads / Interrupted / hard errors, heap limit and earlier buffer the multi-line heap buffer ends up "
+         "equal to the whole stream, or the heap-limit error is returned exactly when a limit h is set and the stream has at least h bytes, "
+         "or a read error of the history is returned, always with no sink call; fuel suffices), tied by kind 207 (one real Searcher, scripted "
+         "readers, heap limits, slice sizes compared). "
          "D10 fixed.",
     note="memory maps are searched as slices (mmap.rs only chooses the strategy; CLI comparison); binary detection off as the "
          "property says; failing reads are C16's theorems; trusted: Coq kernel, extraction, driver, harness, hooks "
@@ -146,7 +151,167 @@ def run(ctx):
                        "(default, 1-byte, constant, random) x optional sink stop; non-trivial = input longer than the "
                        "buffer capacity (forces rolling/growth)")
     sequences(ctx)
+    mlbuf(ctx)
     cli(ctx)
+
+def gen_ml_hist(rng, n_bytes):
+    """read history for the multi-line fill: short reads, Interrupted, at most one hard error"""
+    mode = rng.choice(["default", "default", "one", "const", "random", "random"])
+    if mode == "default":
+        h = []
+    elif mode == "one":
+        h = [(0, 1)] * rng.randint(0, n_bytes + 2)
+    elif mode == "const":
+        k = rng.randint(1, 7)
+        h = [(0, k)] * rng.randint(0, n_bytes + 2)
+    else:
+        h = [(0, rng.choice([0, 1, 1, 2, 3, 4, 9, 40])) for _ in range(rng.randint(0, n_bytes + 3))]
+    if rng.random() < 0.5:
+        for _ in range(rng.randint(1, 4)):
+            h.insert(rng.randint(0, len(h)), (2,))
+    if rng.random() < 0.25:
+        h.insert(rng.randint(0, len(h)), (1,))
+    return h
+
+
+def ml_line(base, heap, mmap, srcs, rooms=None):
+    sv = []
+    for j, (t, b, h, rep) in enumerate(srcs):
+        r = "()" if rep is None else vlist([str(rep[0]), str(rep[1])])
+        rm = "()" if rooms is None or not rooms[j] else vlist([str(x) for x in rooms[j]])
+        sv.append(vlist([str(t), vbytes(b), hist_val(h), r, rm]))
+    return vlist([sg.cfg_val(base["cfg"]), sg.matcher_val(base["needles"], base["confirm"], base["lt_mode"]),
+                  "()" if heap is None else vlist([str(heap)]), "1" if mmap else "0", vlist(sv)])
+
+
+ML_FIXED = [
+    # (heap, mmap, [(tag, input, hist, reply)]): boundary cases first (a stream of exactly heap_limit bytes is
+    # rejected, one byte less is searched; limit 0 with memory maps enabled; errors in the 3-byte prefetch)
+    (4, False, [(1, b"abc\n", [], None), (1, b"ab\n", [], None), (3, b"abc\n", [], None), (3, b"ab\n", [], None), (1, b"abc\nd\n", [(0, 1)] * 9, None)]),
+    (0, True, [(1, b"abc\n", [], None), (1, b"", [], None)]),
+    (0, False, [(1, b"abc\n", [], None), (3, b"", [], None)]),
+    (None, False, [(1, b"ab\nab\nab\n", [(2,), (0, 1), (2,), (2,), (0, 5), (1,)], None), (1, b"ab\nab\n", [(0, 2), (2,), (0, 1), (2,)], None),
+                   (3, b"ab\n", [], None), (1, b"", [(2,), (2,)], None), (1, b"", [(1,)], None), (1, b"a", [(0, 1), (1,)], None)]),
+    (9, False, [(1, b"ab\nab\nab\n", [(0, 2), (2,), (0, 1), (2,), (0, 4), (2,), (1,)], None), (1, b"ab\nab\n", [(0, 2), (2,), (0, 1), (2,)], (1, 2)),
+                (1, b"ab\nab\nab\n", [], None), (1, b"ab\nab\na", [(0, 4), (0, 4), (1,)], None), (1, b"ab\nab\na", [(0, 4), (0, 4), (0, 4), (1,)], None)]),
+    (1, False, [(1, b"", [], None), (1, b"a", [], None), (3, b"", [], None)]),
+    (2, True, [(1, b"a", [(2,)], None), (1, b"ab", [], None), (1, b"abc", [(0, 1)], None)]),
+]
+
+
+def mlbuf(ctx):
+    """kind 207: ONE Searcher with multi_line(true) and a heap limit slurps several sources one after the other
+    (Searcher::fill_multi_line_buffer_from_reader / _from_file: initial length, growth, heap-limit error, read()==0,
+    Interrupted retry, hard errors, the read_to_end shortcut).  Model (Model/MultiLineBuffer.v + the multi-line search)
+    = code on status, events, kind of error and the sizes of the slices offered to the reader; and, independently of
+    the model: a failure-free reader leads to the heap-limit error exactly when a limit h is set and the source has at
+    least h bytes, otherwise to the result of search_slice on the same bytes; an error comes with no sink event."""
+    rng = ctx.rng
+    n = ctx.count(300)
+    nbig = ctx.count(4)
+    metas = []
+    for heap, mmap, srcs in ML_FIXED:
+        b = dict(cfg=sg._cfg(multi_line=True), needles=[(False, b"b\na", True)], confirm=True, lt_mode=0, input=b"ab\nab\n")
+        metas.append((b, heap, mmap, srcs))
+    for i in range(n):
+        base = sg.gen_case(rng, multi_line=True)
+        base["cfg"]["multi_line"] = True
+        base["lt_mode"] = 0
+        inputs = [sg.gen_input(rng, base["cfg"]) if rng.random() < 0.8 else base["input"] for _ in range(rng.randint(2, 4))]
+        ln = len(rng.choice(inputs))
+        heap = None if rng.random() < 0.3 else rng.choice([0, 1, 2, 3, 4, 5, 8, 16, 40, 100, max(0, ln - 1), ln, ln, ln + 1, ln + 1])
+        mmap = rng.random() < 0.3
+        srcs = []
+        for inp in inputs:
+            tag = 1 if mmap else rng.choice([1, 1, 1, 3])
+            hist = gen_ml_hist(rng, len(inp)) if tag == 1 else []
+            rep = (rng.randint(0, 4), rng.choice([1, 2])) if rng.random() < 0.15 else None
+            srcs.append((tag, inp, hist, rep))
+        metas.append((base, heap, mmap, srcs))
+    for i in range(nbig):
+        # sources longer than DEFAULT_BUFFER_CAPACITY (64 KB): the buffer must grow (min(2*len, limit)); the sink
+        # stops at `begin` so that only the fill is at work
+        base = sg.gen_case(rng, multi_line=True)
+        base["cfg"]["multi_line"] = True
+        base["lt_mode"] = 0
+        ln = 65536 + rng.choice([0, 1, 500, 3000])
+        heap = rng.choice([65536, 65537, ln, ln + 1, ln + 1, 70000, 131072, 200000, None])
+        if i == 0:
+            ln, heap = 66036, 131072          # one growth step: 64 KB -> 128 KB
+        elif i == 1:
+            ln, heap = 140000, 150000         # two: 64 KB -> 128 KB -> min(256 KB, limit)
+        inp = bytes(rng.choice(b"ab\n") for _ in range(64)) * (ln // 64) + b"a" * (ln % 64)
+        k = rng.choice([70000, 30000, 65535, 65536])
+        hist = rng.choice([[], [(0, k), (2,), (0, k), (0, k), (2,)], [(0, 65535), (0, 1), (0, 1), (2,), (0, 7)]])
+        srcs = [(1, inp, hist, (0, 1)), (1, inp[:ln - 70], [], (0, 1)), (1, b"ab\n", [], None)]
+        metas.append((base, heap, False, srcs))
+    lines1 = [ml_line(b, heap, mmap, srcs) for b, heap, mmap, srcs in metas]
+    co = vlib.code(207, lines1)
+    lines2, cvs = [], []
+    for (b, heap, mmap, srcs), l1, c in zip(metas, lines1, co):
+        cv = parse_val(c) if c.startswith("(") else None
+        if cv is None or len(cv) != len(srcs) or any(not isinstance(x, list) or len(x) != 4 for x in cv):
+            ctx.violation("multi-line buffer harness failure: %s" % c[:100], dict(kind=207, line=l1), nfi=True)
+            cvs.append(None)
+            lines2.append(l1)
+            continue
+        cvs.append(cv)
+        lines2.append(ml_line(b, heap, mmap, srcs, rooms=[list(x[3]) for x in cv]))
+    mo = vlib.model(207, lines2)
+    # independent oracle: search_slice on the same bytes
+    slines = []
+    for b, heap, mmap, srcs in metas:
+        for t, inp, h, rep in srcs:
+            c = dict(b)
+            c["input"] = inp
+            slines.append(sg.case_val(c, rep))
+    so = vlib.code(301, slines)
+    k = 0
+    stats = dict(sources=0, filled=0, heap_error=0, read_error=0, config_error=0, interrupted=0, grew=0, boundary=0)
+    for (b, heap, mmap, srcs), line, cv, m in zip(metas, lines2, cvs, mo):
+        mv = parse_val(m) if m.startswith("(") else None
+        if cv is None:
+            k += len(srcs)
+            continue
+        if mv is None or len(mv) != len(srcs):
+            ctx.violation("multi-line buffer model failure: %s" % m[:100], dict(kind=207, line=line), nfi=True)
+            k += len(srcs)
+            continue
+        ctx.note_case(line, True)
+        for j, (t, inp, h, rep) in enumerate(srcs):
+            sv = parse_val(so[k]) if so[k].startswith("(") else None
+            k += 1
+            st, evs, ek, rooms = cv[j]
+            rooms = list(rooms)
+            stats["sources"] += 1
+            info = dict(kind=207, line=line, case=sg.describe(b), heap=heap, mmap=mmap, source=j, tag=t, input=inp[:200].decode("latin1"),
+                        input_len=len(inp), hist=h[:12], reply=rep, code=repr(cv[j])[:600], model=repr(mv[j])[:600])
+            if cv[j] != mv[j]:
+                ctx.violation("filling the multi-line buffer: model and code disagree on source %d" % j, info, nfi=True)
+            failing = any(e[0] == 1 for e in h)
+            if heap == 0 and not mmap:
+                want = [1]
+            elif failing:
+                want = [3, 0] + ([2] if heap is not None and heap <= len(inp) else [])
+            else:
+                want = [2] if heap is not None and heap <= len(inp) else [0]
+            if ek not in want:
+                ctx.violation("filling the multi-line buffer: outcome kind %d, expected one of %r (0 filled, 1 configuration, 2 heap limit, 3 read error)"
+                              % (ek, want), info)
+            elif ek != 0:
+                if st != 1 or len(evs) != 0:
+                    ctx.violation("an error while filling the multi-line buffer was returned after sink calls (or not returned)", info)
+            elif sv is None or [st, evs] != [sv[0], sv[1]]:
+                info["slice"] = repr(sv)[:600]
+                ctx.violation("search of a reader/file through the multi-line heap buffer differs from search_slice of the same bytes "
+                              "(truncated or altered buffer)", info)
+            if heap is not None and t == 1 and any(r > max(heap, 3) for r in rooms):
+                ctx.violation("the multi-line buffer offered the reader a slice larger than the heap limit", info)
+            stats["filled" if ek == 0 else "heap_error" if ek == 2 else "read_error" if ek == 3 else "config_error"] += 1
+            stats["interrupted"] += any(e[0] == 2 for e in h)
+            stats["grew"] += (heap is not None and t == 1 and len(inp) >= 65536 and ek == 0)
+            stats["boundary"] += (heap is not None and heap == len(inp))
+    ctx.cov["multi_line_buffer"] = stats
 
 
 def sequences(ctx):
@@ -328,5 +493,12 @@ def replay(ctx, data):
         c = vlib.code(201, [r["line"]])[0]
         m = vlib.model(201, [r["line"]])[0]
         print("code :", c, "\nmodel:", m, "\nslice:", r.get("slice"))
+        if c != m:
+            ctx.violation("replayed case: model and code still disagree", r)
+    if r.get("kind") == 207:
+        # the line carries the slice sizes seen when the case was recorded (they instantiate read_to_end's policy)
+        c = vlib.code(207, [r["line"]])[0]
+        m = vlib.model(207, [r["line"]])[0]
+        print("code :", c, "\nmodel:", m)
         if c != m:
             ctx.violation("replayed case: model and code still disagree", r)
